@@ -276,6 +276,7 @@ def auto_extract(unit, spec, ex, compiler_output):
     names |= set(re.findall(r'no function or associated item named `(\w+)` found', compiler_output))
     names |= set(re.findall(r'cannot find function `(\w+)` in this scope', compiler_output))
     values = set(re.findall(r'cannot find value `(\w+)` in this scope', compiler_output))
+    values |= set(re.findall(r'cannot find type `(\w+)` in this scope', compiler_output))
     if not names and not values:
         return False
     tmpl = open(os.path.join(unit['dir'], spec['template'])).read()
@@ -290,7 +291,7 @@ def auto_extract(unit, spec, ex, compiler_output):
         for nm in sorted(values):
             if nm in ex.auto.get(key, []):
                 continue
-            for k2 in ('const', 'static'):
+            for k2 in ('const', 'static', 'type'):
                 try:
                     src.semi_item(k2, nm)
                 except rsx.LostAnchor:
